@@ -220,39 +220,31 @@ Expected(t, cpp, nodes) ==
 At(ts, i) == IF i \in DOMAIN ts THEN ts[i] ELSE "$"
 R(t, i) == [t |-> t, i |-> i]
 
-RECURSIVE PLevel(_, _, _, _), PCast(_, _, _), PUnary(_, _, _), PPostfix(_, _, _), PostLoop(_, _, _), BinLoop(_, _, _, _),
-          CommaLoop(_, _, _), PArgs(_, _, _, _)
+RECURSIVE PLevel(_, _, _, _), Climb(_, _, _, _), PCast(_, _, _), PUnary(_, _, _), PPostfix(_, _, _), PostLoop(_, _, _), PArgs(_, _, _, _)
 
-\* expression at grammar level l: 1 expression, 2 assignment-expression, 3 conditional-expression, 4..13 binary levels
-PLevel(ts, i, l, cpp) ==
-  IF l = 1 THEN CommaLoop(ts, PLevel(ts, i, 2, cpp), cpp)
-  ELSE IF l = 2 THEN
-         \* C:   unary-expression assignment-operator assignment-expression | conditional-expression
-         \* C++: logical-or-expression assignment-operator initializer-clause | conditional-expression
-         \* both are recognised by parsing a conditional-expression first and then looking for an assignment operator
-         LET lhs == PLevel(ts, i, 3, cpp)
-         IN  IF At(ts, lhs.i) \in AsgOps
-             THEN LET rhs == PLevel(ts, lhs.i + 1, 2, cpp) IN R(Bin(At(ts, lhs.i), lhs.t, rhs.t), rhs.i)
-             ELSE lhs
-  ELSE IF l = 3 THEN
-         LET c == PLevel(ts, i, 4, cpp)
-         IN  IF At(ts, c.i) = "?"
-             THEN LET x == PLevel(ts, c.i + 1, 1, cpp)                           \* ? expression :
-                      y == PLevel(ts, x.i + 1, IF cpp THEN 2 ELSE 3, cpp)        \* C: conditional-expression, C++: assignment-expression
-                  IN  R(Cond(c.t, x.t, y.t), y.i)
-             ELSE c
-  ELSE IF l <= 13 THEN BinLoop(ts, PLevel(ts, i, l + 1, cpp), l, cpp)
-  ELSE PCast(ts, i, cpp)
+\* Precedence climbing.  PLevel(ts, i, min, cpp) parses, from position i, the longest expression all of whose top-level
+\* operators have level >= min:  1 expression, 2 assignment-expression, 3 conditional-expression, 4..13 the binary levels,
+\* 14 cast-expression.  It parses a cast-expression and then lets Climb absorb operators while their level is >= min.
+PLevel(ts, i, min, cpp) == Climb(ts, PCast(ts, i, cpp), min, cpp)
 
-BinLoop(ts, lhs, l, cpp) ==
-  IF At(ts, lhs.i) \in LevelOps(l)
-  THEN LET rhs == PLevel(ts, lhs.i + 1, l + 1, cpp) IN BinLoop(ts, R(Bin(At(ts, lhs.i), lhs.t, rhs.t), rhs.i), l, cpp)
-  ELSE lhs
-
-CommaLoop(ts, lhs, cpp) ==
-  IF At(ts, lhs.i) = ","
-  THEN LET rhs == PLevel(ts, lhs.i + 1, 2, cpp) IN CommaLoop(ts, R(Bin(",", lhs.t, rhs.t), rhs.i), cpp)
-  ELSE lhs
+Climb(ts, lhs, min, cpp) ==
+  LET tk == At(ts, lhs.i)
+  IN  IF tk \in ArithOps /\ BinPrec(tk) >= min
+      THEN \* left-associative level l: the right operand is an expression of level l + 1
+           LET rhs == PLevel(ts, lhs.i + 1, BinPrec(tk) + 1, cpp) IN Climb(ts, R(Bin(tk, lhs.t, rhs.t), rhs.i), min, cpp)
+      ELSE IF tk = "?" /\ 3 >= min
+      THEN \* everything absorbed so far is the logical-OR-expression;  ? expression :  then
+           \* C: conditional-expression, C++: assignment-expression
+           LET x == PLevel(ts, lhs.i + 1, 1, cpp)
+               y == PLevel(ts, x.i + 1, IF cpp THEN 2 ELSE 3, cpp)
+           IN  Climb(ts, R(Cond(lhs.t, x.t, y.t), y.i), min, cpp)
+      ELSE IF tk \in AsgOps /\ 2 >= min
+      THEN \* C:   unary-expression assignment-operator assignment-expression
+           \* C++: logical-or-expression assignment-operator initializer-clause        (right-associative)
+           LET rhs == PLevel(ts, lhs.i + 1, 2, cpp) IN Climb(ts, R(Bin(tk, lhs.t, rhs.t), rhs.i), min, cpp)
+      ELSE IF tk = "," /\ 1 >= min
+      THEN LET rhs == PLevel(ts, lhs.i + 1, 2, cpp) IN Climb(ts, R(Bin(",", lhs.t, rhs.t), rhs.i), min, cpp)
+      ELSE lhs
 
 \* cast-expression: ( type-name ) cast-expression | unary-expression
 PCast(ts, i, cpp) ==
@@ -412,32 +404,28 @@ Size(t) == CASE t.k = "leaf" -> 0 [] t.k = "szT" -> 1
              [] t.k = "call" -> 1 + Size(t.f) + (IF t.args = <<>> THEN 0 ELSE IF Len(t.args) = 1 THEN Size(t.args[1]) ELSE Size(t.args[1]) + Size(t.args[2]))
 
 (***************************************************************************)
-(* Larger trees: a seeded sample.  A tree with 3..6 operators is composed  *)
-(* of a root production over randomly chosen enumerated subtrees.          *)
+(* Larger trees: a seeded sample.  A tree with 3..7 operators is composed  *)
+(* of root productions over randomly chosen enumerated subtrees.           *)
 (***************************************************************************)
-Small(pf) == A(pf, 0) \cup A(pf, 1) \cup A(pf, 2)
-SmallP(pf) == T(pf, "P", 0) \cup T(pf, "P", 1) \cup T(pf, "P", 2)
-BigFamilies(pf) ==
-  LET S == Small(pf)  Q == SmallP(pf)  P == Profile(pf)  S1 == A(pf, 1) \cup A(pf, 2) IN
-  << [kind |-> "bin",  space |-> P.bin \X S1 \X S1],
-     [kind |-> "cond", space |-> S1 \X S \X S1],
-     [kind |-> "asg",  space |-> P.asg \X (T(pf, "L", 1) \cup T(pf, "L", 2)) \X S1],
-     [kind |-> "comma", space |-> S1 \X S1],
-     [kind |-> "call2", space |-> S1 \X S1],
-     [kind |-> "sub",  space |-> (T(pf, "P", 1) \cup T(pf, "P", 2)) \X S1],
-     [kind |-> "un",   space |-> (P.un \cup {"cast", "sizeof"}) \X (A(pf, 2))],
-     [kind |-> "pbin", space |-> {"+", "-"} \X (T(pf, "P", 1) \cup T(pf, "P", 2)) \X S1] >>
-Build(kind, p) ==
-  CASE kind = "bin" -> Bin(p[1], p[2], p[3])
-    [] kind = "cond" -> Cond(p[1], p[2], p[3])
-    [] kind = "asg" -> Bin(p[1], p[2], p[3])
-    [] kind = "comma" -> Bin(",", p[1], p[2])
-    [] kind = "call2" -> Call(Leaf("f"), <<p[1], p[2]>>)
-    [] kind = "sub" -> Sub(p[1], p[2])
-    [] kind = "un" -> (IF p[1] = "cast" THEN Cast("int", p[2]) ELSE IF p[1] = "sizeof" THEN SzE(p[2]) ELSE Pre(p[1], p[2]))
-    [] kind = "pbin" -> Pre("*", Bin(p[1], p[2], p[3]))
 BigSample(pf, perFamily) ==
-  UNION {{Build(BigFamilies(pf)[f].kind, p) : p \in RandomSubset(perFamily, BigFamilies(pf)[f].space)} : f \in DOMAIN BigFamilies(pf)}
+  LET P  == Profile(pf)
+      S  == A(pf, 0) \cup A(pf, 1) \cup A(pf, 2)        \* int expressions with 0..2 operators
+      S1 == A(pf, 1) \cup A(pf, 2)                       \* ... with 1..2 operators
+      S2 == A(pf, 2)
+      L1 == T(pf, "L", 1) \cup T(pf, "L", 2)
+      Q1 == T(pf, "P", 1) \cup T(pf, "P", 2)
+      K  == 1..perFamily
+      Rnd(X) == RandomElement(X)
+  IN  {Bin(Rnd(P.bin), Rnd(S1), Rnd(S1)) : i \in K}
+      \cup {Cond(Rnd(S1), Rnd(S), Rnd(S1)) : i \in K}
+      \cup {Bin(Rnd(P.asg), Rnd(L1), Rnd(S1)) : i \in K}
+      \cup {Bin(",", Rnd(S1), Rnd(S1)) : i \in K}
+      \cup {Call(Leaf("f"), <<Rnd(S1), Rnd(S1)>>) : i \in K}
+      \cup {Sub(Rnd(Q1), Rnd(S1)) : i \in K}
+      \cup {Pre(Rnd(P.un), Rnd(S2)) : i \in K} \cup {Cast("int", Rnd(S2)) : i \in K} \cup {SzE(Rnd(S2)) : i \in K}
+      \cup {Pre("*", Bin(Rnd({"+", "-"}), Rnd(Q1), Rnd(S1))) : i \in K}
+      \cup {Bin(Rnd(P.bin), Bin(Rnd(P.bin), Rnd(S1), Rnd(S)), Rnd(S1)) : i \in K}
+      \cup {Bin(Rnd(P.bin), Rnd(S1), Cond(Rnd(S), Rnd(S1), Rnd(S))) : i \in K}
 
 (***************************************************************************)
 (* Steps (selected by IOEnv.MODE; TLC evaluates the ASSUMEs).              *)
